@@ -135,7 +135,7 @@ func globalTrustedBase() []string {
 		"SMT solvers z3 4.8.12, z3 5.1.0, cvc5 1.0.3 (raced; sat-vs-unsat disagreement invalidates the run)",
 		"hand-written sequence/bit prelude axioms (take/drop/cat/upd with triggers; audited against the standard model by the selftest)",
 		"integers: mathematical Int with exact wrap for unsigned types; signed overflow is an obligation unless the contract says `nooverflow`; len(x) <= 2^56 assumed in overflow obligations",
-		"slices are modelled by value (no aliasing between distinct slice variables); callbacks do not write the verified object's state; GOARCH is 64-bit",
+		"slices are modelled by value (no aliasing between distinct slice variables; a nil slice and an empty slice are the same value; the one modelled aliasing is an in-place append through a slice of a local array, directive `appends`); a range over a map visits arbitrary entries in arbitrary order and len of a map is unspecified; callbacks do not write the verified object's state; GOARCH is 64-bit",
 		"termination is proved only where a `decreases` clause is given",
 		"package-level variables of type error (io.EOF, ErrXxx sentinels) are non-nil and never reassigned; package-level tables are read from their constant initializers",
 	}
@@ -564,7 +564,10 @@ func RunCheck(prop string, opt CheckOptions) *CheckResult {
 			"replay_cmd": fmt.Sprintf("./check --replay %s", filepath.Join(replayDir, sanitizeFile(v.Obl.Name)+".json"))}
 		suffix := " no-failing-input-found"
 		var ce map[string]any
-		if e != nil && familyDir != "" {
+		if os.Getenv("GOVC_NO_REPLAY") != "" {
+			// must-fail corpus runs: only the verdict per obligation matters, the search for a failing input is skipped
+			body["replay_note"] = "replay skipped (GOVC_NO_REPLAY)"
+		} else if e != nil && familyDir != "" {
 			if nFamilyReplays < 8 {
 				nFamilyReplays++
 				ce = e.familyReplay(familyDir, v.Obl.Name)
@@ -590,7 +593,7 @@ func RunCheck(prop string, opt CheckOptions) *CheckResult {
 		body := map[string]any{"property": prop, "obligation": rf.name, "status": "no-input", "found_by": "none",
 			"solver_output": rf.why, "note": "the claimed function/obligation cannot be brought under the verifier on the current tree, so the claim cannot be upheld"}
 		suffix := " no-failing-input-found"
-		if rf.fc != nil && e != nil && !rf.fc.Lemma {
+		if rf.fc != nil && e != nil && !rf.fc.Lemma && os.Getenv("GOVC_NO_REPLAY") == "" {
 			// the contract is still executable: search for an input that violates it on the real code
 			if e.ceCache == nil {
 				e.ceCache = map[string]map[string]any{}
